@@ -392,6 +392,12 @@ class Tr:
             op = n["opcode"]; a, b = inner
             if op == ",":
                 raise Broken("comma operator")
+            if getattr(self, "null_style", "nonnull") == "is_null" and op in ("==", "!=") and \
+                    (self.is_nullptr(a) or self.is_nullptr(b)):
+                # `p == nullptr` : the pointer's nullness becomes a Bool parameter `<p>_is_null`
+                other = b if self.is_nullptr(a) else a
+                v = self.fv(self.ptr_name(other) + "_is_null", "Bool")
+                return v if op == "==" else f"(!{v})"
             if op in ("&&", "||"):
                 return f"({self.expr(a)} {op} {self.expr(b)})"
             ta, tb, tr = ctype(a), ctype(b), ctype(n)
@@ -530,7 +536,27 @@ class Tr:
                             raise Broken(f"cannot supply parameter {pn} of {nm}")
                         out.append(hit)
                 return "(Gen." + CALLABLE[nm] + " " + " ".join(out) + ")"
+            if nm in ("max", "min") and len(inner) == 3:
+                # std::min<T>(a, b) / std::max<T>(a, b) on integers
+                ct = ctype(n); a, b = inner[1], inner[2]
+                ea = self.cast(self.expr(a), ctype(a), ct); eb = self.cast(self.expr(b), ctype(b), ct)
+                lt = "BitVec.slt" if ct[2] else "BitVec.ult"
+                if nm == "min":
+                    return f"(if {lt} {eb} {ea} then {eb} else {ea})"
+                return f"(if {lt} {ea} {eb} then {eb} else {ea})"
             raise Broken(f"call to {nm}")
+        if k == "CXXOperatorCallExpr":
+            # `obj(x)` on a callable object with one integer argument (endianness_convertor):
+            # the callee stays opaque and becomes a function parameter `<obj><width>`
+            rd = inner[0]
+            while rd.get("kind") == "ImplicitCastExpr" and rd.get("inner"):
+                rd = rd["inner"][-1]
+            if rd.get("referencedDecl", {}).get("name") == "operator()" and len(inner) == 3:
+                ct = ctype(n); at = ctype(inner[2])
+                if ct[0] == "int" and at[:2] == ct[:2]:
+                    f = self.fv(self.obj_name(inner[1]) + str(ct[1]), f"BitVec {ct[1]} → BitVec {ct[1]}")
+                    return f"({f} {self.expr(inner[2])})"
+            raise Broken("operator call")
         if k == "UnaryExprOrTypeTraitExpr" and n.get("name") == "sizeof":
             ct = ctype(n)
             at = (n.get("argType") or {})
@@ -607,6 +633,55 @@ class Tr:
             return ctype(n)
         except Broken:
             return None
+    def ptr_name(self, n):
+        x = n
+        while x.get("kind") in ("ImplicitCastExpr", "ParenExpr") and x.get("inner"):
+            x = x["inner"][-1]
+        if x.get("kind") == "DeclRefExpr":
+            return x.get("referencedDecl", {}).get("name", "ptr")
+        if x.get("kind") == "MemberExpr":
+            return x.get("name", "ptr")
+        if x.get("kind") == "CXXMemberCallExpr":
+            callee = x["inner"][0]
+            if callee.get("kind") == "MemberExpr" and len(x["inner"]) == 1:
+                base = callee.get("inner", [])
+                pre = self.obj_name(base[0]) if base and base[0]["kind"] != "CXXThisExpr" else ""
+                return (pre + "_" if pre else "") + re.sub(r"^get_", "", callee.get("name", "ptr"))
+        raise Broken("null comparison of an unsupported pointer expression")
+
+    def switch_groups(self, sw):
+        """`switch (e) { case A: case B: stmt; break; ... default: ... }` -> Lean term of type Nat:
+        the index (source order) of the label group selected by the scrutinee."""
+        inner = [c for c in sw.get("inner", []) if c.get("kind")]
+        scrut = inner[0]; body = inner[-1]
+        if body.get("kind") != "CompoundStmt":
+            raise Broken("switch body is not a block")
+        es = self.expr(scrut)
+        groups = []          # (labels, has_default)
+        kids = [c for c in body.get("inner", []) if not c.get("kind", "").endswith("Comment")]
+        for i, c in enumerate(kids):
+            if c.get("kind") in ("CaseStmt", "DefaultStmt"):
+                if groups and kids[i - 1].get("kind") not in ("BreakStmt", "ReturnStmt"):
+                    raise Broken("switch group falls through into the next one")
+                labels = []; dflt = False; x = c
+                while x.get("kind") in ("CaseStmt", "DefaultStmt"):
+                    xi = [y for y in x.get("inner", []) if y.get("kind")]
+                    if x["kind"] == "CaseStmt":
+                        if len(xi) != 2:
+                            raise Broken("case range")
+                        labels.append(self.cast(self.expr(xi[0]), ctype(xi[0]), ctype(scrut)))
+                    else:
+                        dflt = True
+                    x = xi[-1]
+                groups.append((labels, dflt))
+        if not groups:
+            raise Broken("switch without cases")
+        dflt_ix = next((i for i, g in enumerate(groups) if g[1]), len(groups))
+        out = ""
+        for i, (labels, _) in enumerate(groups):
+            if labels:
+                out += "if (" + " || ".join(f"{es} == {l}" for l in labels) + f") then {i} else\n"
+        return out + str(dflt_ix)
 
     def shift_amount(self, b, eb):
         x = b
@@ -853,6 +928,11 @@ def find_function(docs, spec):
             ps = [re.sub(r"ELFIO::", "", p) for p in ps]
             if ps != spec["params"]:
                 continue
+        if "fargs" in spec:
+            fa = [re.sub(r"^ELFIO::", "", a.get("type", {}).get("qualType", "")) for a in n.get("inner", [])
+                  if a.get("kind") == "TemplateArgument"]
+            if fa != spec["fargs"]:
+                continue
         if "record" in spec:
             if spec["record"] not in (d.get("name", ""), ) and not record_matches(d, n, spec["record"]):
                 continue
@@ -928,12 +1008,15 @@ def select0(fn, sel):
                         return n
                     i += 1
         raise Broken(f"assignment to {name} #{nth} not found")
-    if kind in ("if", "while", "return"):
-        want = {"if": "IfStmt", "while": "WhileStmt", "return": "ReturnStmt"}[kind]
+    if kind in ("if", "while", "return", "switch"):
+        want = {"if": "IfStmt", "while": "WhileStmt", "return": "ReturnStmt",
+                "switch": "SwitchStmt"}[kind]
         nth = int(arg or 0); i = 0
         for n in walk(body):
             if n.get("kind") == want:
                 if i == nth:
+                    if kind == "switch":
+                        return n
                     ch = [c for c in strip_comments(n) if c.get("kind") != "DeclStmt"]
                     return ch[0]
                 i += 1
@@ -1054,6 +1137,8 @@ def translate_site(site, consts, sizes, key):
             body = off if off is not None else "0#64"
             rty = "BitVec 64"
             site = dict(site, select=site.get("select", "") + f" = byte offset from `{base}`")
+        elif node.get("kind") == "SwitchStmt":
+            body = tr.switch_groups(node); rty = "Nat"
         else:
             body = tr.expr(node)
             rty = lean_ty(ctype(node))
